@@ -280,6 +280,86 @@ pub fn edge_family() -> Vec<(String, ModelSpec)> {
     models
 }
 
+/// F12: ONE long vector per model - a dictionary word of 254..1024 characters (thorough: up to 65536), a unigram
+/// under window 255 (510 weights), a tag category with 255..600 candidates (bias and tag weights that long). Each
+/// comes with texts that contain the long pattern (the short common texts never do).
+pub fn long_vector_family(tier: Tier) -> Vec<(String, ModelSpec, Vec<String>)> {
+    use crate::mirror::{TagModel, TagNgramData, TagWeight};
+    let mut out = vec![];
+    let lens: Vec<usize> = tier.pick(vec![254usize, 255, 256, 510, 511, 512, 1024], vec![254, 255, 256, 510, 511, 512, 1024, 4096, 65535, 65536]);
+    for (i, &l) in lens.iter().enumerate() {
+        let word = "a".repeat(l);
+        let b = mk(&[Entry::Dict(word.clone()), Entry::Char("a".into())], 2, 1, 0, (i % 2) as u8, i % 3 == 0);
+        let mut other = "a".repeat(l - 1);
+        other.push('あ');
+        out.push((format!("long dictionary word of {l} characters"), b.spec, vec![word.clone(), format!("b{word}b"), format!("{word}a"), other]));
+    }
+    for (which, w) in [(0u8, 255u8), (1, 255), (0, 254), (0, 128)] {
+        let b = if which == 0 { mk(&[Entry::Char("a".into()), Entry::Char("ab".into())], w, 1, 1, 0, false) } else { mk(&[Entry::Type(vec![2]), Entry::Type(vec![2, 3])], 1, w, 1, 1, false) };
+        out.push((format!("window {w} ({})", if which == 0 { "characters" } else { "types" }), b.spec, vec!["a".repeat(300), "ab".repeat(260), format!("{}あ{}", "a".repeat(256), "b".repeat(257))]));
+    }
+    for k in [255usize, 256, 257, 511, 512, 513, 600] {
+        let mut m = models::build(&[Entry::Char("a".into())], 2, 2, 1, 0);
+        let wv = |salt: usize| -> Vec<i32> { (0..k).map(|c| models::weight(0, salt, c) / 30).collect() };
+        m.tag_models.push(TagModel {
+            token: "a".into(),
+            tags: vec![(0..k).map(|c| format!("t{c}")).collect(), vec!["only".into()]],
+            char_ngram_model: vec![TagNgramData { ngram: "a".into(), weights: vec![TagWeight { rel_position: 0, weights: wv(1) }] }, TagNgramData { ngram: "ba".into(), weights: vec![TagWeight { rel_position: 0, weights: wv(2) }] }],
+            type_ngram_model: vec![TagNgramData { ngram: vec![2], weights: vec![TagWeight { rel_position: 1, weights: wv(3) }] }],
+            bias: wv(4),
+        });
+        out.push((format!("tag category with {k} candidates"), m, vec![]));
+    }
+    out
+}
+
+/// F13: MANY entries of one kind (1024/1025 and 4097; thorough also 65537): dictionary records, character n-grams,
+/// type n-grams (as many distinct ones of length <= 5 as asked, capped by 6^1+..+6^5). The entries the short texts
+/// exercise ("a", "ab", "b", type 2 / 2,2) are the FIRST, a MIDDLE and the LAST entries of the list.
+pub fn many_entries_family(tier: Tier) -> Vec<(String, ModelSpec)> {
+    use crate::mirror::{NgramData, WordWeightRecord};
+    let filler = |i: usize| -> String {
+        // distinct strings over c..z, never containing a or b
+        let mut s = String::new();
+        let mut k = i;
+        loop {
+            s.push((b'c' + (k % 24) as u8) as char);
+            k /= 24;
+            if k == 0 {
+                break;
+            }
+        }
+        s
+    };
+    let mut out = vec![];
+    for n in tier.pick(vec![1024usize, 1025, 4097], vec![1024, 1025, 4097, 65537]) {
+        let real = |i: usize| -> Option<&'static str> { [(0, "a"), (n / 2, "ab"), (n - 1, "b")].iter().find(|x| x.0 == i).map(|x| x.1) };
+        {
+            let mut m = models::build(&[Entry::Char("a".into())], 2, 2, 1, 0);
+            m.dict_model = (0..n).map(|i| { let w = real(i).map(|x| x.to_string()).unwrap_or_else(|| filler(i)); let l = w.chars().count(); WordWeightRecord { weights: (0..l + 1).map(|k| models::weight(0, i % 97, k)).collect(), comment: String::new(), word: w } }).collect();
+            out.push((format!("{n} dictionary records"), m));
+        }
+        {
+            let mut m = models::build(&[Entry::Dict("ba".into())], 2, 2, -1, 1);
+            m.char_ngram_model = (0..n).map(|i| { let w = real(i).map(|x| x.to_string()).unwrap_or_else(|| filler(i)); let l = w.chars().count(); NgramData { weights: (0..5 - l).map(|k| models::weight(1, i % 89, k)).collect(), ngram: w } }).filter(|d| d.ngram.chars().count() <= 4).collect();
+            out.push((format!("{n} character n-grams"), m));
+        }
+        {
+            let mut m = models::build(&[Entry::Char("a".into())], 1, 3, 0, 0);
+            let cap = n.min(6 + 36 + 216 + 1296 + 7776);
+            m.type_ngram_model = (0..cap).map(|i| {
+                // the i-th type string in length-then-lexicographic order over 1..=6
+                let (mut len, mut k, mut block) = (1usize, i, 6usize);
+                while k >= block { k -= block; len += 1; block *= 6; }
+                let ng: Vec<u8> = (0..len).map(|p| 1 + ((k / 6usize.pow((len - 1 - p) as u32)) % 6) as u8).collect();
+                NgramData { weights: (0..7 - len).map(|q| models::weight(0, i % 83, q)).collect(), ngram: ng }
+            }).collect();
+            out.push((format!("{cap} type n-grams"), m));
+        }
+    }
+    out
+}
+
 /// Sparse large-window models: the weight vectors are long (window >= 8) but only their first
 /// few entries are non-zero, so any "effective length" shortcut (trimmed zeros) meets the
 /// variable-length arithmetic for patterns hanging over the sentence start.
@@ -541,7 +621,44 @@ pub fn run(tier: Tier) -> ! {
         fam_counts.insert("F6-scale-up".into(), json!(ms6.len()));
         chk.set("f6_texts", json!(t6.len()));
         ms6.par_iter().for_each(|b| check_model(&chk, b, &t6, true));
+        // F11: lengths around the sizes at which an index type, a chunk or a buffer could change
+        // (u8, 1 KiB, 4 KiB; thorough also u16): a rotation text, a run, and a run ending in another script
+        let mut t11: Vec<Vec<char>> = vec![];
+        for len in tier.pick(vec![255usize, 256, 257, 1024, 1025], vec![255, 256, 257, 1024, 1025, 4096, 4097, 65535, 65536, 65537]) {
+            t11.push((0..len).map(|i| alpha[(i * 3 + i / 7) % alpha.len()]).collect());
+            t11.push((0..len).map(|i| alpha[(gen::mix(i as u64) % alpha.len() as u64) as usize]).collect());
+            t11.push(vec!['a'; len]);
+            t11.push((0..len + 3).map(|i| alpha[i % 2]).collect());
+            let mut t = vec!['a'; len];
+            t[len - 1] = 'あ';
+            t11.push(t);
+        }
+        let ms11: Vec<&Built> = ms6.iter().step_by(tier.pick(7, 3)).collect();
+        fam_counts.insert("F11-threshold-lengths".into(), json!(ms11.len()));
+        chk.set("f11_text_lengths", json!(t11.iter().map(|t| t.len()).collect::<std::collections::BTreeSet<_>>()));
+        ms11.par_iter().for_each(|b| check_model(&chk, b, &t11, true));
+        // quick tier: the u16 threshold on two models only (thorough has it in the list above)
+        if tier == Tier::Quick {
+            let mut t16: Vec<Vec<char>> = vec![];
+            for len in [65535usize, 65540] {
+                t16.push((0..len).map(|i| alpha[(i * 3 + i / 7) % alpha.len()]).collect());
+                t16.push((0..len).map(|i| alpha[i % 2]).collect());
+            }
+            ms11.par_iter().take(2).for_each(|b| check_model(&chk, b, &t16, true));
+        }
     }
+    {
+        let f12 = long_vector_family(tier);
+        fam_counts.insert("F12-long-vectors".into(), json!(f12.len()));
+        f12.par_iter().for_each(|(desc, spec, extra)| {
+            let mut t: Vec<Vec<char>> = extra.iter().map(|x| x.chars().collect()).collect();
+            t.extend(gen::strings(&['a', 'b'], 1, 3));
+            check_model(&chk, &Built { spec: spec.clone(), desc: desc.clone() }, &t, true);
+        });
+    }
+    let f13: Vec<Built> = many_entries_family(tier).into_iter().map(|(desc, spec)| Built { spec, desc }).collect();
+    fam_counts.insert("F13-many-entries".into(), json!(f13.len()));
+    f13.par_iter().for_each(|b| check_model(&chk, b, &texts, true));
     let f7: Vec<Built> = sparse_large_window_family().into_iter().map(|(desc, spec)| Built { spec, desc }).collect();
     fam_counts.insert("F7-sparse-large-window".into(), json!(f7.len()));
     f7.par_iter().for_each(|b| check_model(&chk, b, &texts, true));
